@@ -7,9 +7,11 @@ import Goyang.Spec.File
 Driver for C13 (a) registry / revision binding and (b) the file chooser.
 
   registry <load>* <query>*
-      load  = ("m" | "s") name file k rev*k     module / submodule header, loaded from `file`
+      load  = ("m" | "s" | "+m" | "+s") name file k rev*k     module / submodule header, loaded from `file`;
+              with `+` it is a further statement of the same text as the load before it (one Parse call
+              per text: all of its statements are added, or none)
       query = ("imp" | "inc") name (rev | "~")  import / include, with or without revision-date
-    -> loads=<ok|dup|badname>,… modules=<key:file:fullName>,… subs=… q=<file:fullName|nil>,…
+    -> loads=<ok|dup|badname per text>,… modules=<key:file#position in text:fullName>,… subs=… q=<file:fullName|nil>,…
        (hex fields; bindings sorted by hex key; `-` for an empty list)
   spec.registry <same>   -> the same line computed by Goyang.Spec.Registry from the headers
        (`undef` where revisions are not dates, `*` for a query about which the property is silent)
@@ -31,6 +33,10 @@ structure Load where
   name : String
   file : String
   revs : List String
+  /-- continues the text of the load before it (`+m` / `+s`) -/
+  cont : Bool := false
+  /-- position among the statements of its text -/
+  idx : Nat := 0
 
 inductive Query where
   | mk (isInclude : Bool) (name : String) (rev : Option String)
@@ -47,7 +53,7 @@ def parseReq : Nat → List String → Option (List Load × List Query)
   | _, [] => some ([], [])
   | 0, _ => none
   | fuel + 1, kind :: namex :: rest =>
-    if kind == "m" || kind == "s" then
+    if kind == "m" || kind == "s" || kind == "+m" || kind == "+s" then
       match rest with
       | filex :: kx :: rest => do
         let name ← Wire.decStr namex
@@ -55,7 +61,7 @@ def parseReq : Nat → List String → Option (List Load × List Query)
         let k ← decNat kx
         let (revs, rest) ← takeStrs k rest
         let (ls, qs) ← parseReq fuel rest
-        some (⟨kind == "s", name, file, revs⟩ :: ls, qs)
+        some ({ sub := kind == "s" || kind == "+s", name, file, revs, cont := kind.startsWith "+" } :: ls, qs)
       | _ => none
     else if kind == "imp" || kind == "inc" then
       match rest with
@@ -68,11 +74,21 @@ def parseReq : Nat → List String → Option (List Load × List Query)
     else none
   | _, _ => none
 
+/-- The statement of a load; the `idx`-th statement of a text stands on line `idx + 1`. -/
 def Load.stmt (l : Load) : Stmt :=
-  let leaf (kw arg : String) (subs : List Stmt) := Stmt.mk kw true arg l.file 1 1 subs
+  let leaf (kw arg : String) (subs : List Stmt) := Stmt.mk kw true arg l.file (l.idx + 1) 1 subs
   let bt := if l.sub then [leaf "belongs-to" "owner" [leaf "prefix" "o" []]] else []
-  Stmt.mk (if l.sub then "submodule" else "module") true l.name l.file 1 1
+  Stmt.mk (if l.sub then "submodule" else "module") true l.name l.file (l.idx + 1) 1
     (bt ++ l.revs.map fun r => leaf "revision" r [])
+
+/-- Group the loads into texts (a load with `cont` joins the text before it). -/
+def texts : List Load → List (List Load)
+  | [] => []
+  | l :: rest =>
+    match texts rest with
+    | (l' :: t) :: ts => if l'.cont then ({ l with idx := 0 } :: (l' :: t).map fun x => { x with idx := x.idx + 1 }) :: ts
+                         else [{ l with idx := 0 }] :: (l' :: t) :: ts
+    | ts => [{ l with idx := 0 }] :: ts
 
 def Query.stmt : Query → Stmt
   | .mk inc name rev =>
@@ -81,14 +97,18 @@ def Query.stmt : Query → Stmt
 
 def sortStrs (xs : List String) : List String := xs.mergeSort fun a b => decide (a ≤ b)
 
-def showMod (m : Mod) : String := encStr m.stmt.file ++ ":" ++ encStr m.fullName
+/-- A loaded module: the file and the position of its statement in the text, and its full name. -/
+def showAt (file : String) (idx : Nat) (full : String) : String :=
+  encStr (file ++ "#" ++ toString idx) ++ ":" ++ encStr full
+
+def showMod (m : Mod) : String := showAt m.stmt.file (m.stmt.line - 1) m.fullName
 
 def showBindings (r : Registry) (km : KeyMap) : String :=
   commaJoin <| sortStrs <| km.map fun (k, id) =>
     encStr k ++ ":" ++ (match r.byId id with | some m => showMod m | none => "dangling")
 
 def runRegistry (ls : List Load) (qs : List Query) : String :=
-  let (r, out) := Registry.loadAll (ls.map Load.stmt)
+  let (r, out) := Registry.loadTexts ((texts ls).map fun t => t.map Load.stmt)
   let loads := commaJoin (out.map fun o => match o with
     | none => "ok" | some (.duplicate _ _) => "dup" | some (.badName _ _) => "badname")
   let q := commaJoin <| qs.map fun q =>
@@ -103,17 +123,17 @@ def specRegistry (ls : List Load) (qs : List Query) : String :=
   let hdr (l : Load) : Header :=
     let m : Mod := { seq := 0, stmt := l.stmt }
     ⟨l.sub, l.name, m.current⟩
-  let hs := ls.map hdr
-  -- the load a header stands for: the first one carrying it (later ones are rejected)
-  let fileOf (h : Header) : String := match ls.find? (fun l => hdr l = h) with
-    | some l => l.file
-    | none => ""
-  let full (h : Header) : String := if h.rev = "" then h.name else h.name ++ "@" ++ h.rev
-  let showH (h : Header) : String := encStr (fileOf h) ++ ":" ++ encStr (full h)
-  let loads := commaJoin ((outcomesG hs).map fun o => match o with
+  let ts := texts ls
+  let loads := commaJoin ((textsOutcomesAfter [] (ts.map fun t => t.map hdr)).map fun o => match o with
     | .ok => "ok" | .dup => "dup" | .badName => "badname")
-  -- names are looked up among the headers that can be loaded at all (no `@` in the name)
-  let hs := loadable hs
+  -- the loads of the accepted texts; their headers are what names are looked up among
+  let acc : List Load := ts.foldl (fun acc t =>
+    if textOutcome (acc.map hdr) (t.map hdr) = .ok then acc ++ t else acc) []
+  let hs := acc.map hdr
+  let full (h : Header) : String := if h.rev = "" then h.name else h.name ++ "@" ++ h.rev
+  let showH (h : Header) : String := match acc.find? (fun l => hdr l = h) with
+    | some l => showAt l.file l.idx (full h)
+    | none => "unknown"
   let wf := hs.all fun h => h.rev == "" || (Spec.parseDate h.rev.toList).isSome
   let bindings (sub : Bool) : String :=
     let keys := ((hs.filter (·.isSub == sub)).flatMap fun h => [h.name, full h]).eraseDups
